@@ -159,3 +159,28 @@ Theorem eviction_f2_refuted :
   (exists res, irun [32] [9] (IDown [] 0 f2_tree) f2_events_bad = IDone res /\ contents (view res) = []).
 Proof. exact StepProofs.eviction_f2_refuted. Qed.
 Print Assumptions eviction_f2_refuted.
+
+(* ---- the doRemove descent with the two sibling dereferences on the way up
+   (remove.go:96-109): off-path evictions that never hit the embedded leaf of a
+   dirty node are invisible; an eviction of such a leaf BETWEEN the dereference
+   of n.Left and of n.Right makes the parent collapse the branch away even for
+   an absent key (the transient variant of finding F1). ---- *)
+Theorem remove_eviction_off_path_invisible :
+  forall k es s, inv_r s -> rlegal_run k evicts s es -> whole_r k (rrun k s es) = whole_r k s.
+Proof. exact StepProofs.remove_eviction_off_path_invisible. Qed.
+Print Assumptions remove_eviction_off_path_invisible.
+
+Theorem remove_descent_correct :
+  forall k p es res, rlegal_run k evicts (RDown [] 0 p) es -> rrun k (RDown [] 0 p) es = RDone res ->
+    view res = fst (fst (tremove k (view p))).
+Proof. exact StepProofs.remove_descent_correct. Qed.
+Print Assumptions remove_descent_correct.
+
+Theorem eviction_f1_transient_refuted :
+  (exists res, rrun [128; 1] (RDown [] 0 f1t_tree) (f1t_steps 10) = RDone res /\
+               contents (view res) = [([0; 1; 0], [2]); ([128], [1]); ([128; 255; 1; 128], [3])]) /\
+  (exists fs lbl lf l r lp, f1t_mid = RCol1 fs lbl lf l r lp /\ evict r f1t_evicted) /\
+  (exists res, rrun [128; 1] f1t_mid [REvictR f1t_evicted; RStep; RStep] = RDone res /\
+               contents (view res) = [([0; 1; 0], [2])]).
+Proof. exact StepProofs.eviction_f1_transient_refuted. Qed.
+Print Assumptions eviction_f1_transient_refuted.
